@@ -638,6 +638,98 @@ func RunRemoteDkg(ctx context.Context, sc *DkgScenario, binary string, log *Log)
 		}
 		log.Emit(ev)
 	}
+	if len(sc.ConcGens) > 0 {
+		// several generations requested at the same moment of (possibly different) instances: the real gRPC sender and receiver of the
+		// binaries carry their messages side by side (DkgConc.tla)
+		type outT struct {
+			res  *pb.GenerateResponse
+			err  error
+			hung bool
+		}
+		outs := make([]outT, len(sc.ConcGens))
+		var wg sync.WaitGroup
+		start := make(chan struct{})
+		for gi, g := range sc.ConcGens {
+			wg.Add(1)
+			go func(gi int, g ConcGen) {
+				defer wg.Done()
+				c, derr := dial(g.Initiator)
+				if derr != nil {
+					outs[gi] = outT{err: derr}
+					return
+				}
+				defer c.Close()
+				<-start
+				gctx, cancel := context.WithTimeout(ctx, 60*time.Second)
+				defer cancel()
+				r0, e0 := pb.NewAccountManagerClient(c).Generate(gctx, &pb.GenerateRequest{Account: g.Account, Passphrase: []byte("pass"), Participants: g.N, SigningThreshold: g.T})
+				outs[gi] = outT{res: r0, err: e0, hung: e0 != nil && strings.Contains(e0.Error(), "DeadlineExceeded")}
+			}(gi, g)
+		}
+		close(start)
+		wg.Wait()
+		// what a client sees on every instance (listing), then what is on disk after the binaries have been stopped
+		listedAcc := map[uint64]map[string]string{}
+		crashed := []uint64{}
+		for _, id := range ids {
+			listedAcc[id] = map[string]string{}
+			alive := !hasExited(envs[id].exited)
+			if c, derr := dial(id); derr == nil {
+				lctx, lcancel := context.WithTimeout(ctx, 10*time.Second)
+				lres, lerr := pb.NewListerClient(c).ListAccounts(lctx, &pb.ListAccountsRequest{Paths: []string{wn}})
+				lcancel()
+				_ = c.Close()
+				if lerr != nil {
+					alive = false
+				} else {
+					for _, a := range lres.GetDistributedAccounts() {
+						listedAcc[id][a.GetName()] = hex.EncodeToString(a.GetCompositePublicKey())
+					}
+				}
+			} else {
+				alive = false
+			}
+			if !alive {
+				crashed = append(crashed, id)
+			}
+		}
+		for _, id := range ids {
+			envs[id].Kill()
+		}
+		disk := map[uint64]*Base{}
+		for _, id := range ids {
+			xb, err := NewBase(ctx, envs[id].Spec, log, NewControl(log))
+			if err != nil {
+				return err
+			}
+			disk[id] = xb
+		}
+		for gi, g := range sc.ConcGens {
+			o := outs[gi]
+			ok := o.err == nil && o.res != nil && o.res.GetState() == pb.ResponseState_SUCCEEDED
+			ev := Ev{"ev": "ConcOutcome", "g": gi, "account": g.Account, "initiator": g.Initiator, "ok": ok, "hung": o.hung, "n": g.N, "t": g.T}
+			parts := []uint64{}
+			if o.res != nil {
+				ev["message"] = o.res.GetMessage()
+				ev["pubkey"] = hex.EncodeToString(o.res.GetPublicKey())
+				for _, p := range o.res.GetParticipants() {
+					parts = append(parts, p.GetId())
+				}
+			}
+			sort.Slice(parts, func(i, j int) bool { return parts[i] < parts[j] })
+			ev["participants"] = parts
+			log.Emit(ev)
+			for _, id := range ids {
+				cl := &Cluster{}
+				info := cl.Inspect(ctx, &Instance{ID: id, B: disk[id]}, g.Account)
+				_, inF := listedAcc[id][g.Account]
+				log.Emit(Ev{"ev": "ConcHolds", "g": gi, "inst": id, "present": info.Present, "in_fetcher": inF, "composite": info.Composite, "share": info.Share,
+					"threshold": info.Threshold, "vvec": info.VVec, "nvvec": len(info.VVec), "participants": info.Participants, "share_ok": info.ShareOK, "crashed": false})
+			}
+		}
+		log.Emit(Ev{"ev": "End", "sc": sc.ID, "crashed": crashed})
+		return nil
+	}
 	if !sc.Generate {
 		for _, id := range ids {
 			envs[id].Kill()
